@@ -15,7 +15,7 @@ RULE = ("subsample / downsample / powerlaw_sample run under the RNG seam: every 
 ASSUMPTIONS = ["uniform variates cannot be enumerated: answered from the boundary grid %r (both ends of [0,1))" % (UNIFORM_GRID,),
                "ordered samples are enumerated when there are at most 720 of them, otherwise every unordered subset in ascending and descending order",
                "'exact' MLE: the log-likelihood is concave in alpha, so the maximiser lies within one grid step of the best of 3001 grid points"]
-REQUIRED_CLASSES = {"all": ["subsample-n-equals-total", "subsample-n-too-large", "zero-count-category", "downsample-identity", "downsample-table", "uniform-near-1", "mle-all-counts-equal-cmin"]}
+REQUIRED_CLASSES = {"all": ["subsample-n-equals-total", "subsample-n-too-large", "zero-count-category", "downsample-identity", "downsample-table", "uniform-near-1", "mle-all-counts-equal-cmin", "many-categories"]}
 MIN_OUTCOMES = 10
 
 
@@ -28,6 +28,11 @@ def spaces(tier):
             for c in itertools.product(range(4), repeat=L):
                 if sum(c) <= tot:
                     yield ("subsample", c)
+
+    def gen_many():
+        for ncat in (255, 256, 257, 300) + (() if q else (65537,)):
+            for top in (1, 3):
+                yield ("subsample-many", ncat, top)
 
     def gen_down():
         for n in range(0, 5 if q else 6):
@@ -47,6 +52,7 @@ def spaces(tier):
 
     return [
         Space("subsample-all-count-vectors", gen_sub, "count vectors of length 1..4, entries 0..3, total <= 6 (quick) / 8 (thorough) x n in 0..total+1 x every RNG answer", shards=64),
+        Space("subsample-many-categories", gen_many, "count vectors with 255..300 (thorough: 65537) categories, entries cycling through 0..top: n = total (one possible sub-sample, both orders) and n = 1 (every single item), conservation laws on every RNG answer", per_case=True),
         Space("downsample-all-multisets", gen_down, "multisets of 0..4(5) strings over {A,B,AB} as list/ndarray/Series/table/table with duplicated index labels x maxseqs in {None,0..N+1} x every RNG answer"),
         Space("powerlaw_sample-uniform-grid", gen_pl, "size 0..3 x xmin 1..4 x alpha {1.5,2,3.5} x uniform grid^size"),
         Space("powerlaw_mle-all-multisets", gen_mle, "multisets of 1..4(5) counts from 1..6 x cmin {1,2} x 3 methods"),
@@ -131,6 +137,37 @@ def check_case(case, acc):
                 return
             acc.extra["rng_answers"] += nexec
             acc.ok((counts, n, len(exp)), nontrivial=0 < n < N)
+    elif kind == "subsample-many":
+        _, ncat, top = case
+        counts = [(i * 7 + 3) % (top + 1) for i in range(ncat)]
+        counts[-1] = top
+        N = sum(counts)
+        acc.cls("many-categories")
+        for n in (N, 1) if ncat < 1000 else (N,):
+            holder = {}
+
+            def run(ch):
+                with rng_seam(ch) as seam:
+                    return acc.call(pyrepseq.subsample, list(counts), n)
+            seen_items = 0
+            for choices, r in explore_choices(run):
+                if raised(r):
+                    acc.fail("subsample/many-categories/raised-%s" % r.type, case, "indices, counts", r)
+                    return
+                idx, cnt = [int(x) for x in r[0]], [int(x) for x in r[1]]
+                bad = (idx != sorted(set(idx)) or any(c <= 0 for c in cnt) or sum(cnt) != n or len(idx) != len(cnt)
+                       or any(i < 0 or i >= ncat or c > counts[i] for i, c in zip(idx, cnt)))
+                if n == N and not bad:
+                    bad = idx != [i for i, c in enumerate(counts) if c > 0] or cnt != [c for c in counts if c > 0]
+                if bad:
+                    acc.fail("subsample/many-categories/conservation", case, "sorted unique indices < %d, positive counts <= original, sum %d" % (ncat, n),
+                             {"indices": idx[:12], "counts": cnt[:12], "n_categories_returned": len(idx)}, note="n=%d" % n)
+                    return
+                seen_items += 1
+            if n == 1 and seen_items != N:
+                acc.fail("subsample/many-categories/not-every-item-reachable", case, N, seen_items)
+                return
+            acc.ok((ncat, top, n, seen_items), nontrivial=True)
     elif kind == "subsample1":
         check_case(("subsample", case[1]), acc)
     elif kind == "downsample":
